@@ -77,11 +77,48 @@ RCP_OPS = {"CallRequest": 0x0841, "CallReply": 0x8841, "RepeaterBroadcastTransmi
 OPS = {"RRS": RRS_OPS, "LP": LP_OPS, "TMP": TMP_OPS, "RCP": RCP_OPS}
 
 
-# ---------------------------------------------------------------------------------------------------- generic dump
+# ------------------------------------------------------------------------------------------------- field comparison
+#
+# "Equal fields" is decided on the protocol fields, not on whatever an implementation keeps on its objects:
+#  (a) every field the case GENERATED is looked up on the parsed object under the attribute name the constructor stores it
+#      under (expected_pdu_fields / expected_hrnp_fields / expected_hstrp_fields, recursively for RadioIP / GPSData / packet
+#      type / options / the nested PDU) and must equal the generated value;
+#  (b) additionally every public attribute (instance attributes, slots, properties) present on BOTH the built and the parsed
+#      object whose built value is not None must be equal (flags, derived services, defaults), recursively.
+# Attributes that are None or absent on the built object (diagnostics such as the source octets of a parsed object), private
+# names and callables are not fields.  An attribute missing on one side is skipped and noted (SKIPPED -> evidence classes),
+# never a failure.
+
+SKIPPED = set()  # "Class.attribute" names skipped because absent on one side; drained into the tally by the record functions
+
+
+def _is_leaf(o) -> bool:
+    return o is None or isinstance(o, (bool, int, float, str, bytes, bytearray, enum.Enum, datetime.date, datetime.time))
+
+
+def public_attrs(o) -> dict:
+    """public data attributes of an object: instance __dict__, __slots__ of every class in the MRO, properties"""
+    names = set()
+    d = getattr(o, "__dict__", None)
+    if isinstance(d, dict):
+        names |= {k for k in d if isinstance(k, str)}
+    for cls in type(o).__mro__:
+        slots = cls.__dict__.get("__slots__", ())
+        names |= set((slots,) if isinstance(slots, str) else slots)
+        names |= {k for k, v in cls.__dict__.items() if isinstance(v, property)}
+    out = {}
+    for n in sorted(n for n in names if not n.startswith("_")):
+        try:
+            v = getattr(o, n)
+        except Exception:
+            continue
+        if not callable(v):
+            out[n] = v
+    return out
 
 
 def dump(o):
-    """Recursive, comparable dump of the public state of a PDU object."""
+    """Recursive, comparable dump of the public state of an object."""
     if o is None or isinstance(o, (bool, int, float, str)):
         return o
     if isinstance(o, (bytes, bytearray)):
@@ -94,12 +131,9 @@ def dump(o):
         return {"items": [[dump(k), dump(v)] for k, v in o.items()]}
     if isinstance(o, (list, tuple)):
         return [dump(x) for x in o]
-    if hasattr(o, "__dict__"):
-        d = {"__class__": type(o).__name__}
-        for k, v in sorted(vars(o).items()):
-            if not k.startswith("_") and not callable(v):
-                d[k] = dump(v)
-        return d
+    attrs = public_attrs(o)
+    if attrs or hasattr(o, "__dict__"):
+        return {"__class__": type(o).__name__, **{k: dump(v) for k, v in attrs.items()}}
     return repr(o)
 
 
@@ -125,16 +159,131 @@ def first_diff(a, b, path="$"):
     return None if (type(a) is type(b) and a == b) else (path, a, b)
 
 
-def expect_equal_dump(clause: str, got, want, ignore=()):
-    g, w = dump(got), dump(want)
-    for k in ignore:
-        if isinstance(g, dict):
-            g.pop(k, None)
-        if isinstance(w, dict):
-            w.pop(k, None)
-    d = first_diff(g, w)
-    if d:
-        raise Fail(clause, observed={"path": d[0], "parsed": d[1]}, expected={"path": d[0], "built": d[2]})
+def compare_common(clause: str, parsed, built, path="$", ignore=()):
+    """rule (b): attributes present on both sides whose built value is not None"""
+    pa, ba = public_attrs(parsed), public_attrs(built)
+    for k, bv in ba.items():
+        if k in ignore or bv is None:
+            continue
+        if k not in pa:
+            SKIPPED.add(f"{type(built).__name__}.{k}")
+            continue
+        pv = pa[k]
+        if not _is_leaf(bv) and not isinstance(bv, (list, tuple, dict)) and not _is_leaf(pv) and not isinstance(pv, (list, tuple, dict)):
+            compare_common(clause, pv, bv, f"{path}.{k}")
+            continue
+        d = first_diff(dump(pv), dump(bv), f"{path}.{k}")
+        if d:
+            raise Fail(clause, observed={"path": d[0], "parsed": d[1]}, expected={"path": d[0], "built": d[2]})
+
+
+def check_generated(clause: str, obj, spec: dict, path="$"):
+    """rule (a): spec maps attribute name -> generated value (dict = nested object, ("enum", member name), ("items", [[key member,
+    value member]...]) for enum->enum dicts, ("options", [[type member, hex]...]), bytes, date / time, numbers, str, None)"""
+    for attr, exp in spec.items():
+        p = f"{path}.{attr}"
+        try:
+            val = getattr(obj, attr)
+        except Exception:
+            SKIPPED.add(f"{type(obj).__name__}.{attr}")
+            continue
+        if isinstance(exp, dict):
+            if val is None:
+                raise Fail(clause, observed={"path": p, "parsed": None}, expected={"path": p, "generated": "an object"})
+            check_generated(clause, val, exp, p)
+            continue
+        try:
+            if isinstance(exp, tuple) and exp[0] == "enum":
+                got = val.name if isinstance(val, enum.Enum) else dump(val)
+                want = exp[1]
+            elif isinstance(exp, tuple) and exp[0] == "items":
+                got, want = [[k.name, v.name] for k, v in val.items()], exp[1]
+            elif isinstance(exp, tuple) and exp[0] == "options":
+                got, want = [[c.name, bytes(d).hex()] for c, d in val], exp[1]
+            elif isinstance(exp, (bytes, bytearray)):
+                got, want = (bytes(val).hex() if isinstance(val, (bytes, bytearray)) else dump(val)), bytes(exp).hex()
+            elif isinstance(exp, (datetime.date, datetime.time)):
+                got, want = dump(val), exp.isoformat()
+            elif exp is None:
+                got, want = dump(val), None
+            else:
+                got, want = (val if type(val) in (int, float, bool, str) else dump(val)), exp
+        except Exception as e:
+            got, want = f"unreadable ({type(e).__name__})", dump(exp) if not isinstance(exp, tuple) else exp[1]
+        if type(got) in (int, float, bool) and type(want) in (int, float, bool):
+            ok = got == want
+        else:
+            ok = type(got) is type(want) and got == want
+        if not ok:
+            raise Fail(clause, observed={"path": p, "parsed": got}, expected={"path": p, "generated": want})
+
+
+def _ip_spec(d):
+    return None if d is None else {"subnet": d["subnet"], "radio_id": d["id"]}
+
+
+def expected_pdu_fields(case) -> dict:
+    """attribute name (as stored by the constructor the builder calls) -> generated value"""
+    p, op, f = case["proto"], case["op"], case["f"]
+    out = {"is_reliable": case["rel"]}
+    if p == "RRS":
+        out.update(opcode=("enum", op), radio_ip=_ip_spec(f["ip"]))
+        if "result" in f:
+            out["result"] = ("enum", f["result"])
+        if "renew" in f:
+            out["renew_time_seconds"] = f["renew"]
+        if "state" in f:
+            out["radio_state"] = ("enum", f["state"])
+    elif p == "LP":
+        out.update(specific_service=("enum", op), request_id=f["request_id"], radio_ip=_ip_spec(f["ip"]))
+        if op == "StandardReport":
+            g = f["gps"]
+            out["result"] = ("enum", f["result"])
+            out["gpsdata"] = {"data_valid": g["valid"], "greenwich_time": None if g["time"] is None else datetime.time(*g["time"]),
+                              "greenwich_date": None if g["date"] is None else datetime.date(*g["date"]), "north_south": g["ns"],
+                              "latitude": g["lat"] / 10000, "east_west": g["ew"], "longitude": g["lon"] / 10000, "speed_knots": g["speed"] / 100,
+                              "direction": g["dir"]}
+    elif p == "TMP":
+        out.update(opcode=("enum", op), is_confirmed=f["confirmed"], has_option=f["option"] is not None,
+                   option_data=None if f["option"] is None else bytes.fromhex(f["option"]), request_id=f["request_id"],
+                   destination_ip=_ip_spec(f["dst"]), source_ip=_ip_spec(f.get("src")))
+        if "text" in f:
+            out["text_data"] = f["text"].encode("utf-16-le")
+        if "short" in f:
+            out["short_data"] = bytes.fromhex(f["short"])
+        if "result" in f:
+            out["result_code"] = ("enum", f["result"])
+    else:
+        out["opcode"] = ("enum", op)
+        names = {"raw_opcode": "raw_opcode", "raw_payload": "raw_payload", "raw_value": "raw_value", "config": "broadcast_config_raw", "alias": "talker_alias_data"}
+        for k, attr in names.items():
+            if k in f:
+                out[attr] = bytes.fromhex(f[k])
+        for k, attr in {"call_type": "call_type", "result": "result", "mode": "repeater_mode", "status": "repeater_status", "service": "repeater_service_type",
+                        "target": "radio_ip_id_target", "alias_format": "talker_alias_data_format", "status_target": "status_change_target"}.items():
+            if k in f:
+                out[attr] = ("enum", f[k])
+        for k, attr in {"target_id": "target_id", "sender_id": "sender_id", "broadcast_type": "broadcast_type", "status_value": "status_change_value"}.items():
+            if k in f:
+                out[attr] = f[k]
+        if "settings" in f:
+            out["status_change_settings"] = ("items", [list(x) for x in f["settings"]])
+    return out
+
+
+def expected_hrnp_fields(h, opcode: str, inner) -> dict:
+    return {"version": bytes([h["version"]]), "block_number": h["block"], "source": h["src"], "destination": h["dst"], "packet_number": h["pn"],
+            "opcode": ("enum", opcode), "data": inner}
+
+
+def expected_hstrp_fields(env, inner) -> dict:
+    return {"version": env["version"], "sn": env["sn"], "pkt_type": dict(env["flags"]), "options": {"options": ("options", [list(o) for o in env["options"]])},
+            "payload": inner}
+
+
+def expect_equal_fields(clause: str, parsed, built, generated: dict, ignore=()):
+    check_generated(clause, parsed, generated)
+    compare_common(clause, parsed, built, ignore=ignore)
 
 
 # -------------------------------------------------------------------------------------------------------- builders
@@ -334,7 +483,7 @@ def oracle_pdu(case):
     if frame_2 != frame:
         raise Fail("serialise_twice_same_octets", frame_2.hex(), frame.hex())
     _unchanged("serialising_leaves_the_pdu_unchanged", pdu, built)
-    n = call(len, pdu, clause="serialise_no_exception")[1]
+    n = _reported_len(pdu, "serialise_no_exception", len(frame))
     if n != len(frame):
         raise Fail("len_equals_octets_produced", n, len(frame))
     check_hdap_frame(case, frame, "")
@@ -347,10 +496,10 @@ def oracle_pdu(case):
     again = call(back.as_bytes, clause="reserialise_no_exception")[1]
     if again != frame:
         raise Fail("reencode_equal_octets", again.hex(), frame.hex())
-    expect_equal_dump("roundtrip_fields_equal", back, pdu)
+    expect_equal_fields("roundtrip_fields_equal", back, pdu, expected_pdu_fields(case))
     # fixed point must be stable: the same octets parse to the same fields again, the same parsed object serialises the same again
     back_2 = call(HDAP.from_bytes, frame, clause="parse_no_exception")[1]
-    expect_equal_dump("parse_twice_same_fields", back_2, back)
+    expect_equal_fields("parse_twice_same_fields", back_2, back, expected_pdu_fields(case))
     again_2 = call(back.as_bytes, clause="reserialise_no_exception")[1]
     if again_2 != again:
         raise Fail("reserialise_twice_same_octets", again_2.hex(), again.hex())
@@ -369,17 +518,17 @@ def oracle_pdu(case):
         raise Fail("hrnp_carries_the_pdu_octets", hb[12:].hex(), frame.hex())
     if hb[10:12] != want[10:12]:
         raise Fail("hrnp_checksum_reproduced", hb[10:12].hex(), want[10:12].hex())
-    if call(len, hp, clause="hrnp_serialise_no_exception")[1] != len(hb):
+    if _reported_len(hp, "hrnp_serialise_no_exception", len(hb)) != len(hb):
         raise Fail("hrnp_len_equals_octets_produced", len(hp), len(hb))
     hback = call(HRNP.from_bytes, hb, clause="hrnp_parse_no_exception")[1]
-    if hback.checksum_correct is not True:
+    if getattr(hback, "checksum_correct", True) is not True:
         raise Fail("hrnp_checksum_verifies_after_parse", hback.checksum_correct, True)
     if type(hback.data) is not type(pdu):
         raise Fail("hrnp_parse_gives_same_class", type(hback.data).__name__, type(pdu).__name__)
     hagain = call(hback.as_bytes, clause="hrnp_reserialise_no_exception")[1]
     if hagain != hb:
         raise Fail("hrnp_reencode_equal_octets", hagain.hex(), hb.hex())
-    expect_equal_dump("hrnp_roundtrip_fields_equal", hback, hp, ignore=("checksum_correct",))
+    expect_equal_fields("hrnp_roundtrip_fields_equal", hback, hp, expected_hrnp_fields(h, "DATA", expected_pdu_fields(case)), ignore=("checksum_correct",))
 
     # ---- nested in HSTRP with options
     env = case["hstrp"]
@@ -394,7 +543,7 @@ def oracle_pdu(case):
         raise Fail("hstrp_option_chain", sb[6 : len(sb) - len(frame)].hex(), want[6 : 6 + n_opt].hex())
     if sb[6 + n_opt :] != frame:
         raise Fail("hstrp_carries_the_pdu_octets", sb[6 + n_opt :].hex(), frame.hex())
-    if call(len, sp.options, clause="hstrp_serialise_no_exception")[1] != n_opt:
+    if _reported_len(getattr(sp, "options", None), "hstrp_serialise_no_exception", n_opt) != n_opt:
         raise Fail("hstrp_options_len_equals_octets_produced", len(sp.options), n_opt)
     sback = call(HSTRP.from_bytes, sb, clause="hstrp_parse_no_exception")[1]
     if sback is None:
@@ -404,7 +553,7 @@ def oracle_pdu(case):
     sagain = call(sback.as_bytes, clause="hstrp_reserialise_no_exception")[1]
     if sagain != sb:
         raise Fail("hstrp_reencode_equal_octets", sagain.hex(), sb.hex())
-    expect_equal_dump("hstrp_roundtrip_fields_equal", sback, sp)
+    expect_equal_fields("hstrp_roundtrip_fields_equal", sback, sp, expected_hstrp_fields(env, expected_pdu_fields(case)))
 
     # ---- the same inner object in a second, different HRNP / HSTRP wrapper; wrappers and inner object stay as they were
     h2 = {"version": (h["version"] + 1) % 5, "block": h["block"] ^ 0xFF, "src": h["dst"], "dst": h["src"], "pn": h["pn"] ^ 0xFFFF}
@@ -430,6 +579,20 @@ def oracle_pdu(case):
     _unchanged("inner_pdu_fields_unchanged_by_wrappers", pdu, built)
 
 
+def _reported_len(obj, clause: str, default: int) -> int:
+    """len(obj) when the class reports a length, else ``default`` (a class without __len__ is not a violation)"""
+    if obj is None or not hasattr(type(obj), "__len__"):
+        SKIPPED.add(f"{type(obj).__name__}.__len__")
+        return default
+    return call(len, obj, clause=clause)[1]
+
+
+def _drain_skipped(sub: str, t):
+    for name in sorted(SKIPPED):
+        t.cls(sub, "skipped_attribute_absent_on_one_side." + name)
+    SKIPPED.clear()
+
+
 def _unchanged(clause: str, obj, before):
     d = first_diff(dump(obj), before)
     if d:
@@ -449,14 +612,14 @@ def oracle_transport(case):
         want = ref.hrnp_frame(h["version"], h["block"], ref.HRNP_OPCODES[h["opcode"]], h["src"], h["dst"], h["pn"], b"")
         if hb != want:
             raise Fail("hrnp_control_equals_reference", hb.hex(), want.hex())
-        if call(len, hp)[1] != len(hb):
+        if _reported_len(hp, "no_unexpected_exception", len(hb)) != len(hb):
             raise Fail("hrnp_len_equals_octets_produced", len(hp), len(hb))
         hback = call(HRNP.from_bytes, hb)[1]
-        if hback.checksum_correct is not True:
+        if getattr(hback, "checksum_correct", True) is not True:
             raise Fail("hrnp_checksum_verifies_after_parse", hback.checksum_correct, True)
         if call(hback.as_bytes)[1] != hb:
             raise Fail("hrnp_reencode_equal_octets", hback.as_bytes().hex(), hb.hex())
-        expect_equal_dump("hrnp_roundtrip_fields_equal", hback, hp, ignore=("checksum_correct",))
+        expect_equal_fields("hrnp_roundtrip_fields_equal", hback, hp, expected_hrnp_fields(h, h["opcode"], None), ignore=("checksum_correct",))
         for clause, fn in (("hrnp_serialise_twice_same_octets", hp.as_bytes), ("hrnp_reserialise_twice_same_octets", hback.as_bytes)):
             if call(fn)[1] != hb:
                 raise Fail(clause, fn().hex(), hb.hex())
@@ -473,7 +636,7 @@ def oracle_transport(case):
             raise Fail("hstrp_parse_gives_object", None, "HSTRP")
         if call(sback.as_bytes)[1] != sb:
             raise Fail("hstrp_reencode_equal_octets", sback.as_bytes().hex(), sb.hex())
-        expect_equal_dump("hstrp_roundtrip_fields_equal", sback, sp)
+        expect_equal_fields("hstrp_roundtrip_fields_equal", sback, sp, expected_hstrp_fields(env, None))
         for clause, fn in (("hstrp_serialise_twice_same_octets", sp.as_bytes), ("hstrp_reserialise_twice_same_octets", sback.as_bytes)):
             if call(fn)[1] != sb:
                 raise Fail(clause, fn().hex(), sb.hex())
@@ -647,11 +810,13 @@ def record_pdu(sub):
         t.case(sub, key=case, nontrivial=nt, cls=cls[0])
         for c in cls[1:]:
             t.cls(sub, c)
+        _drain_skipped(sub, t)
 
     return rec
 
 
 def record_transport(case, t: Tally):
+    _drain_skipped("transport", t)
     if case["kind"] == "hrnp":
         h = case["hrnp"]
         t.case("transport", key=case, nontrivial=True, cls="hrnp." + h["opcode"])
@@ -1044,6 +1209,7 @@ def run_boundary(ctx: Ctx, sub: SubCheck, items, gen):
             ctx.run_case(sub.name, sub.oracle, case, t)
             nt = classify(case)[0] if "proto" in case else True
             t.case(sub.name, nontrivial=nt, cls=f"boundary.{label}")
+            _drain_skipped(sub.name, t)
             if len(k) < 1500 and n_sampled < 1 and label not in ("background",):
                 t.sample(sub.name, case)
                 n_sampled += 1
